@@ -16,7 +16,7 @@ RULE = ("SF-core recipes weighted toward the id mechanism (forward references by
 TRUSTED = ["harness/sfcore.py: recipe AST -> YAML / Coq printers; capture OutputStream reading .id at write time"]
 ASSUMPTIONS = ["the theorems are about the SF-core fragment (Interp.v); recipes outside it are only checked by the "
                "direct oracle on the implementation"]
-W = dict(case_twin=0.07, dual_fwd=0.25, fwd=0.5, nick=0.55, ref=0.32, zero_count=0.18, once=0.25, hidden_table=0.12, formula=0.25, randref=0.08)
+W = dict(hidden_nick=0.08, case_twin=0.07, dual_fwd=0.25, fwd=0.5, nick=0.55, ref=0.32, zero_count=0.18, once=0.25, hidden_table=0.12, formula=0.25, randref=0.08)
 
 
 DIRECTED = [S.stream_dual_forward_underfilled, S.stream_history_rows_hold_once_refs, S.stream_late_forward_reference, S.stream_stale_slot, S.stream_idle_middle, S.stream_shared_nick_forward, S.stream_once_cluster, S.stream_randref_nicks, S.stream_nick_spelled_like_table, S.stream_captured_slot]
